@@ -511,11 +511,12 @@ void ConstrainedFDLayout::recGenerateClusterVariablesAndConstraints(
 
             if (cluster->m_overlap_replacement_map.count(id) > 0)
             {
-                // This shape is child of another cluster also, so replace
-                // this node with the other cluster for the purpose of
+                // This shape is child of other clusters also, so replace
+                // this node with the other clusters for the purpose of
                 // non-overlap with other children of the current cluster.
-                expandedClusterSet.insert(
-                        cluster->m_overlap_replacement_map[id]);
+                const std::vector<Cluster *>& others =
+                        cluster->m_overlap_replacement_map[id];
+                expandedClusterSet.insert(others.begin(), others.end());
             }
             // Normal case: Add shape for generation of non-overlap
             // constraints.
